@@ -35,6 +35,16 @@ Theorem C16_restore_child_index_beyond : forall w chain del d,
 Proof. exact scan_fresh_child_beyond. Qed.
 Print Assumptions C16_restore_child_index_beyond.
 
+(** ... also when the restore was interrupted (a crash or a failing write between two of its
+    commits) and is run again: from ANY wallet state a scan leaves every account's next path
+    beyond every path of the seed found on chain. (Before the [fix:] of scan.rs the indices were
+    restored only from the outputs restored by that very run, so the second run of an
+    interrupted restore left them at 0: found by the crash enumeration of the restore.) *)
+Theorem C16_scan_child_index_beyond_from_any_state : forall w chain del d,
+  In d chain -> snd (co_key d) < lookup (w_child (scan_repair w chain del)) (fst (co_key d)).
+Proof. exact scan_child_beyond_any. Qed.
+Print Assumptions C16_scan_child_index_beyond_from_any_state.
+
 (** ... and a second scan changes nothing. *)
 Theorem C16_restore_idempotent : forall w chain del,
   w_outs w = [] -> NoDup (map ckey chain) ->
@@ -44,8 +54,9 @@ Proof. exact scan_fresh_idempotent. Qed.
 Print Assumptions C16_restore_idempotent.
 
 (** Repair, fixpoint form: a wallet in which every chain output of the seed is recorded and
-    not marked Spent (and, when pending transactions are dropped, none is Locked and nothing is
-    Unconfirmed) is left exactly as it is — a completed repair is stable. That a repair which
+    not marked Spent, whose next-child counters lie beyond every path on chain (and, when
+    pending transactions are dropped, none is Locked and nothing is Unconfirmed) is left exactly
+    as it is — a completed repair is stable. That a repair which
     KEEPS pending transactions reaches such a state from any wallet is C16_repair_converges
     below; for a repair that DROPS them (delete_unconfirmed) it is checked by the correspondence
     run and its second-scan oracle, not proved: the open finding C16-unconfirmed-on-chain (an
@@ -53,6 +64,7 @@ Print Assumptions C16_restore_idempotent.
     is a counterexample to the unrestricted statement. *)
 Theorem C16_repair_partial_stable : forall w chain del,
   accidental (w_outs w) chain = [] -> missing (w_outs w) chain = [] ->
+  (forall d, In d chain -> snd (co_key d) < lookup (w_child w) (fst (co_key d))) ->
   (del = true -> locked_on_chain (w_outs w) chain = []
                  /\ filter (fun o => status_eqb (r_status o) Unconfirmed) (w_outs w) = []) ->
   scan_repair w chain del = w.
